@@ -78,6 +78,8 @@ namespace cs
         std::size_t         fixed_size   = 0;     // != 0: element type fixed by the composition (std_allocator)
         std::size_t         fixed_align  = 0;
         bool                bytes_only   = false; // pmr interface: only (bytes, alignment)
+        std::size_t         align_cap    = 0;     // != 0: requests are kept at or below this alignment (standard-style
+                                                  // Allocators as leaves promise no more)
         std::string         name;
     };
 
